@@ -31,7 +31,8 @@ ASSUMPTIONS = [
     "other MediaWiki section; the attribute grammar; one TSV tag row and the unit class stub row; the traversal "
     "selection; the refusal of every multi-library merge",
     "BY CONSTRUCTION OF THE MODEL ONLY: that the writer's entry list is parents-first (HedSchemaTagSection."
-    "_finalize_section is not modelled); a TSV location is a map from the ten suffixes (file naming not modelled); the "
+    "_finalize_section is not modelled; tested for file-loaded and for in-memory edited schemas by the clause "
+    "wiki-independent-listing, an independent line reader of the saved MediaWiki text); a TSV location is a map from the ten suffixes (file naming not modelled); the "
     "reader's line splitting is splitting at U+000A; the XML writer is modelled at the name element only",
     "TESTED ONLY (this harness, on the implementation): the headline clause at whole-schema level -- save;load == "
     "original for XML/MediaWiki/TSV x merged/unmerged over all bundled schemas and generated edits --, cross-format "
